@@ -24,7 +24,7 @@ def q_suite(profile, n_quick, n_thorough, variants_quick, variants_thorough, rul
             return
         ctx.rule = rule
         rng = random.Random("%d/%s/%s" % (ctx.seed, ctx.prop, profile))
-        scripts = suiterun.load_corpus(ctx.prop)
+        scripts = suiterun.load_corpus(ctx.prop, prefix="q_")
         for i in range(n):
             name = "%s_%s_%d_%d" % (ctx.prop, profile, ctx.seed, i)
             scripts.append((name, suite_q.gen_script(rng, name, profile, max_ops_quick if quick else max_ops_thorough)))
